@@ -75,7 +75,8 @@ class Ctx:
             rc, out = sh([sys.executable, os.path.join(V, "build_overlay.py")])
             if rc != 0:
                 raise Broken("overlay", out)
-            rc, out = sh(["go", "build", "-tags", "verif", "-overlay", os.path.join(BUILD, "overlay.json"),
+            ov = out.strip().splitlines()[-1]
+            rc, out = sh(["go", "build", "-tags", "verif", "-overlay", ov,
                           "-o", HARNESS, "./internal/zzverif/harness"], cwd=REPO, env=GOENV, timeout=900)
         if rc != 0:
             raise Broken("go build of /repo with the verification harness failed", out[-4000:])
